@@ -234,6 +234,9 @@ def check_C01(tier, seed):
              ("(setq v 1) (defun f (v) (list v (g))) (defun g () v) (list (f (+ v 1)) v)", '((2 2) 1)'), ("(setq l '(1 2)) (dolist (e l) (setq l (cons e l))) l", '(2 1 1 2)'),
              ("(let ((n 3) (out nil)) (dotimes (k n) (setq n 10) (setq out (cons k out))) (list out n))", '((2 1 0) 10)'),
              ("(setq x '(1 2)) (funcall (lambda (x) (dolist (x x) (tick 1 x)) x) '(7 8))", '(7 8)'),
+             # degenerate but well-formed core forms (D47, D48, D49: repaired)
+             ("(list (and) (and 1) (and 1 nil 2) (or) (or nil 2))", '(t 1 nil nil 2)'), ("(let ((i 0)) (list (while (< i 3) (setq i (+ i 1))) i (while nil 5)))", '(nil 3 nil)'),
+             ("(setq n49 0) (list (let ((x (setq n49 (+ n49 1))))) (let* ((x 1) (y (setq n49 (+ n49 x))))) (let ()) n49)", '(nil nil nil 2)'),
              ("(let ((x 1)) (when-let ((x (+ x 1)) (y (+ x 1))) (list x y)))", '(2 3)'), ("(let ((x 1)) (if-let* ((x (+ x 1)) (y (+ x 1))) (list x y)))", '(2 3)')]
     sc_cases = []
     for j, (text, want) in enumerate(scope):
